@@ -29,6 +29,7 @@ import (
 
 	"github.com/ChainSafe/sygma-relayer/chains/evm/calls/events"
 	"github.com/ChainSafe/sygma-relayer/chains/evm/listener/eventHandlers"
+	clitopology "github.com/ChainSafe/sygma-relayer/cli/topology"
 	"github.com/ChainSafe/sygma-relayer/comm"
 	"github.com/ChainSafe/sygma-relayer/comm/p2p"
 	"github.com/ChainSafe/sygma-relayer/config/relayer"
@@ -523,6 +524,65 @@ func init() {
 			return "refused"
 		}
 	}
+	// cli <peers i,j,…/threshold> => ok:<peers/threshold> | …        (TEST: the operator's side of the announcement)
+	//   The REAL `topology encrypt` command body encrypts a topology file and prints the ciphertext and the hash to announce;
+	//   the REAL provider, given the printed ciphertext as fetched body and the printed hash as announced hash, must accept it
+	//   and return the same topology (so the hash the CLI tells operators to announce is the one the relayers check).
+	ops["C13.cli"] = func(a []string) string {
+		f := strings.Split(a[0], "/")
+		peers := []int{}
+		for _, x := range items(f[0], ",") {
+			peers = append(peers, int(u64(x)))
+		}
+		dir, err := os.MkdirTemp("", "verif-c13-")
+		if err != nil {
+			panic(err)
+		}
+		defer os.RemoveAll(dir)
+		tp := filepath.Join(dir, "topology.json")
+		if err := os.WriteFile(tp, c13TopoJSON(nil, peers, f[1]), 0o600); err != nil {
+			panic(err)
+		}
+		old := os.Stdout
+		r, w, err := os.Pipe()
+		if err != nil {
+			panic(err)
+		}
+		got := make(chan []byte, 1)
+		go func() { b, _ := io.ReadAll(r); got <- b }()
+		os.Stdout = w
+		cerr := clitopology.VerifC13Encrypt(tp, c13Key)
+		os.Stdout = old
+		w.Close()
+		printed := string(<-got)
+		r.Close()
+		if cerr != nil {
+			return "clierr"
+		}
+		const p1, p2 = "Encrypted topology is: ", "Hash of the topology "
+		i, j := strings.Index(printed, p1), strings.Index(printed, p2)
+		if i < 0 || j < 0 {
+			return "unparsed-output"
+		}
+		ctHex := strings.TrimSpace(printed[i+len(p1) : j])
+		hash := strings.TrimSpace(printed[j+len(p2):])
+		prov, err := topology.NewNetworkTopologyProvider(relayer.TopologyConfiguration{EncryptionKey: c13Key, Url: "http://unused"}, &c13Fetcher{body: []byte(ctHex + "\n")})
+		if err != nil {
+			panic(err)
+		}
+		if hash == "" {
+			return "empty-hash"
+		}
+		t, err := prov.NetworkTopology(hash)
+		if err != nil {
+			return "rejected"
+		}
+		xs := []string{}
+		for _, p := range t.Peers {
+			xs = append(xs, c13Idx(p.ID))
+		}
+		return "ok:" + joinOr(xs, ",") + "/" + itoa(t.Threshold)
+	}
 	gens["C13"] = genC13
 }
 
@@ -616,6 +676,11 @@ func genC13(g *G) {
 				}
 			}
 		}
+	}
+	// 3c. TEST: what `topology encrypt` prints is accepted by the provider under the printed hash
+	for i := 0; i < g.Count(12, 300); i++ {
+		ps := c13Subset(g)
+		g.Emit("cli", c13Ints(ps)+"/"+itoa(1+g.Intn(4)))
 	}
 	// 4. refresh: body variants × announced-hash variants × event lists × store outcome
 	thrs := []string{"1", "2", "3", "0", "-1", "0x2", "abc", "", "1_0", "9223372036854775807", "9223372036854775808"}
